@@ -139,6 +139,15 @@ fn dec_class(e: &png::DecodingError) -> String {
                 ("as a compression flag", "invalidCompressionFlag"),
                 ("No compression flag", "missingCompressionFlag"),
             ];
+            // the variant name from the Debug form first (a reworded message does not change it), the Display text as a fall-back
+            let dbg = format!("{:?}", f);
+            for v in ["Unrepresentable", "InvalidKeywordSize", "MissingNullSeparator", "InflationError", "OutOfDecompressionSpace", "InvalidCompressionMethod", "InvalidCompressionFlag", "MissingCompressionFlag"] {
+                if dbg.contains(&format!("BadTextEncoding({})", v)) {
+                    let mut n = v.to_string();
+                    n[..1].make_ascii_lowercase();
+                    return format!("err:{}", n);
+                }
+            }
             for (pat, name) in table {
                 if m.contains(pat) {
                     return format!("err:{}", name);
@@ -156,7 +165,14 @@ fn enc_class(e: &png::EncodingError) -> String {
     match e {
         png::EncodingError::Format(f) => {
             let m = f.to_string();
-            if m.contains("cannot be encoded into valid ISO 8859-1") {
+            let dbg = format!("{:?}", f);
+            if dbg.contains("BadTextEncoding(Unrepresentable)") {
+                "err:unrepresentable".into()
+            } else if dbg.contains("BadTextEncoding(InvalidKeywordSize)") {
+                "err:invalidKeywordSize".into()
+            } else if dbg.contains("BadTextEncoding(CompressionError)") {
+                "err:compressionError".into()
+            } else if m.contains("cannot be encoded into valid ISO 8859-1") {
                 "err:unrepresentable".into()
             } else if m.contains("Invalid keyword size") {
                 "err:invalidKeywordSize".into()
